@@ -78,8 +78,17 @@ def workload(res):
     gens = tw.generated_programs(seed, 40000 if thorough else 8000)
     items += [(t, s, "exec") for t, s in gens]
     items += [(t, s, "eval") for t, s in tw.generated_expressions(seed, 20000 if thorough else 6000)]
-    # W3a: soft keywords at every identifier position of real programs
     rng = core.rng_for(seed, "derive")
+    # an expression with something after it: line breaks, comments, joined empty lines, blanks, form feeds (expression mode
+    # is the only place where the grammar sees several consecutive newline tokens)
+    tails = ["\n", "\n\n", "\n\n\n", "\n\\\n\n", "\n\\\n\\\n\n", "  # c", "\n# c\n", "\n  \n", "\n\x0c\n", " \\\n", " \\\n\n", "\n\\\n\n\\\n\n", "\r\n\r\n", "\r\r", "\n \\\n\n", ";", "\n;"]
+    exprs = tw.generated_expressions(seed + 7919, 600 if thorough else 120)
+    for k, (t, s_) in enumerate(exprs):
+        if "\n" in s_:
+            continue
+        for tail in ([tails[k % len(tails)], rng.choice(tails)] if not thorough else tails):
+            items.append(("eval-tail:%s:%r" % (t, tail), s_ + tail, "eval"))
+    # W3a: soft keywords at every identifier position of real programs
     small = [p for p in progs if len(p[1]) < 60000]
     rng.shuffle(small)
     for tag, text in small[:(1500 if thorough else 120)] + gens[:(4000 if thorough else 300)]:
